@@ -100,26 +100,86 @@ func moduleKind(name string) string {
 
 // sigOf gives a diagnostic its mechanism signature. Instance numbers are folded (i0_recv and
 // i1_recv are one mechanism), except in names that are words with a digit (lfsr8, float16).
-func sigOf(d vlog.Diag) string {
+func sigOf(d vlog.Diag, files map[string]string) string {
 	id := d.Ident
 	if d.Class == vlog.ClassSyntax {
-		id = syntaxKey(d.Msg)
+		// a syntax error has no identifier: the mechanism is named by the shape of the message and of
+		// the offending source line
+		id = syntaxKey(d.Msg) + "@" + lineShape(files[d.File], d.Line)
+		if m := expectedIdent.FindStringSubmatch(d.Msg); m != nil && verilogKeyword[m[1]] {
+			// a declaration list that ends early is reported at the first token of whatever follows
+			// (any opcode's header): the mechanism is the keyword that opened the unfinished list
+			id = "expected-identifier,-found-keyword@" + openerOf(files[d.File], d.Line, m[1])
+		}
 	}
 	id = strings.ReplaceAll(id, "lfsr8", "lfsr@")
 	id = digits.ReplaceAllString(id, "N")
 	id = strings.ReplaceAll(id, "lfsr@", "lfsr8")
-	return string(d.Class) + ":" + moduleKind(d.Module) + ":" + id
+	mod := d.Module
+	if mod == "" {
+		// lexical errors carry no module: name the kind after the file (<module>.v for every generated file)
+		mod = strings.TrimSuffix(d.File, ".v")
+		if k := moduleKind(mod); !strings.HasPrefix(k, "extra:") {
+			return string(d.Class) + ":" + k + ":" + id
+		}
+		return string(d.Class) + ":file:" + digits.ReplaceAllString(mod, "N") + ":" + id
+	}
+	return string(d.Class) + ":" + moduleKind(mod) + ":" + id
 }
 
-var quoted = regexp.MustCompile(`"[^"]*"|'[^']*'`)
+var expectedIdent = regexp.MustCompile(`^expected identifier, found "([a-z_]+)"`)
 
-// syntaxKey reduces a syntax message to its shape (quoted tokens and numbers removed).
+var verilogKeyword = map[string]bool{"reg": true, "wire": true, "localparam": true, "always": true, "assign": true,
+	"initial": true, "input": true, "output": true, "integer": true, "parameter": true, "endmodule": true}
+
+// openerOf: first word of the error line when it is not the reported keyword itself, else the first
+// word of the nearest earlier line that is neither blank nor a comment.
+func openerOf(text string, line int, found string) string {
+	ls := strings.Split(text, "\n")
+	for k := line; k >= 1; k-- {
+		if k > len(ls) {
+			continue
+		}
+		f := strings.Fields(ls[k-1])
+		if len(f) == 0 || strings.HasPrefix(f[0], "//") {
+			continue
+		}
+		if k == line && f[0] == found {
+			n := 0
+			for _, w := range f {
+				if w == found {
+					n++
+				}
+			}
+			if n < 2 {
+				continue // the line starts with the reported token: the unfinished list is further up
+			}
+		}
+		return f[0]
+	}
+	return ""
+}
+
+func lineShape(text string, line int) string {
+	if line < 1 {
+		return ""
+	}
+	ls := strings.Split(text, "\n")
+	if line > len(ls) {
+		return ""
+	}
+	f := strings.Join(strings.Fields(ls[line-1]), "_")
+	if len(f) > 40 {
+		f = f[:40]
+	}
+	return f
+}
+
+// syntaxKey reduces a syntax message to its shape.
 func syntaxKey(msg string) string {
-	m := quoted.ReplaceAllString(msg, "_")
-	m = digits.ReplaceAllString(m, "N")
-	f := strings.Fields(m)
-	if len(f) > 8 {
-		f = f[:8]
+	f := strings.Fields(msg)
+	if len(f) > 9 {
+		f = f[:9]
 	}
 	return strings.Join(f, "-")
 }
@@ -163,6 +223,14 @@ func noteReach(sig string, fe bool, c Case, d vlog.Diag) {
 	}
 }
 
+var unsupportedSeen = map[string]int{}
+
+func noteUnsupported(d vlog.Diag) {
+	reachMu.Lock()
+	defer reachMu.Unlock()
+	unsupportedSeen[moduleKind(d.Module)+": "+digits.ReplaceAllString(d.Msg, "N")]++
+}
+
 func flushReach(entry string) {
 	reachMu.Lock()
 	defer reachMu.Unlock()
@@ -171,6 +239,7 @@ func flushReach(entry string) {
 		m[s] = map[string]any{"fe": r.FE, "cfg": r.Cfg, "min": json.RawMessage(r.Min), "diag": r.Line}
 	}
 	pbt.Extra(entry, "signatures", m)
+	pbt.Extra(entry, "unsupported_skipped", unsupportedSeen)
 }
 
 // ---------------------------------------------------------------------------
@@ -296,15 +365,19 @@ func prop(c Case) pbt.Outcome {
 	for _, dg := range diags {
 		if !defectClass[dg.Class] {
 			unsupported++
+			noteUnsupported(dg)
 			continue
 		}
 		if why := lintException(dg, files); why != "" {
 			labels["lint-exception:"+why] = true
 			continue
 		}
-		s := sigOf(dg)
+		s := sigOf(dg, files)
 		noteReach(s, fe, c, dg)
-		if recorded[s] && !c.Strict {
+		if c.Focus != "" && s != c.Focus {
+			continue // replay file of one recorded mechanism: the other diagnostics of the machine have their own file
+		}
+		if recorded[s] && !c.Strict && c.Focus == "" {
 			if !knownSeen[s] {
 				knownSeen[s] = true
 				known = append(known, s)
